@@ -36,4 +36,4 @@ run() {
   flock /tmp/.verif_wt.lock git -C /repo worktree remove --force $wt; rm -rf $vd
 }
 export -f run
-ls -d seeded/${SEED_GLOB:-C*}/ | xargs -P 8 -I{} bash -c 'run {}' | sort
+ls -d seeded/${SEED_GLOB:-C*}/ | xargs -P ${SEED_JOBS:-8} -I{} bash -c 'run {}' | sort
